@@ -135,6 +135,15 @@ class Func:
         a = self.node.args
         return [x.arg for x in a.posonlyargs + a.args]
 
+    def all_params(self):
+        a = self.node.args
+        out = [x.arg for x in a.posonlyargs + a.args + a.kwonlyargs]
+        if a.vararg:
+            out.append(a.vararg.arg)
+        if a.kwarg:
+            out.append(a.kwarg.arg)
+        return out
+
     def decorators(self):
         return [norm(d) for d in self.node.decorator_list]
 
